@@ -526,6 +526,8 @@ bool Instance::configure_tx_txin() {
                 // Key path spending (stack size is 1 after removing optional annex)
                 validation = CScript() << program << OP_CHECKSIG;
                 sigver = SigVersion::TAPROOT;
+                // the annex, if any, is not an argument of the implied script (BIP341): only the signature goes on the stack
+                wstack_to_stack = stack.size();
                 // this is the preamble; it is btcdeb pretending that a script exists which doesn't
                 has_preamble = true;
             } else {
